@@ -22,11 +22,11 @@ DOM = {"L": [Fraction(v) for v in (1, 2, 3, 4, 5, 8, 9)], "S": [Fraction(v) for 
 NP_RENAME = {"self._frame_length": "L", "self._frame_shift": "S", "self._dft_size": "D"}
 TORCH_RENAME = {"frame_length": "L", "frame_shift": "S"}
 
-CONFIGS = [("causal", False), ("centered", True), ("centered", False)]
+CONFIGS = [("causal", False), ("causal", True), ("centered", True), ("centered", False)]
 
 
 def cfg_name(style, kaldi):
-    return "%s%s" % (style, "+kaldi_shift" if kaldi and style == "centered" else "")
+    return "%s%s" % (style, "+kaldi_shift" if kaldi else "")
 
 
 def canon_len(e, names):
